@@ -2,6 +2,7 @@
 from ..common import Ctx, Failure, Result
 from .. import memrun
 from . import _mem, _redis
+from . import _rabbit
 
 S = memrun.S
 RULE = ("histories over one or two queues with a normal, a topic-filtered normal and a delayed-category consumer: enqueues and "
@@ -140,6 +141,7 @@ def run(ctx: Ctx) -> Result:
                 seen.add(kind)
                 res.failures.append(Failure(kind, what, {"history": _mem.strip(h), "where": where}, None))
     _redis.run_seq(ctx, res, "c05r", {"C05"}, "delay", 150, 3000, rng)
+    _rabbit.run_seq(ctx, res, "c05q", {"C05"}, "delay", 120, 2500, rng)
     return res
 
 
